@@ -4,7 +4,6 @@ package main
 
 import (
 	"fmt"
-	"sync"
 	"go/ast"
 	"go/parser"
 	"go/token"
@@ -14,6 +13,7 @@ import (
 	"sort"
 	"strconv"
 	"strings"
+	"sync"
 
 	"golang.org/x/tools/go/ssa"
 )
@@ -55,11 +55,11 @@ type FuncContract struct {
 	Encoder    bool
 	Inline     bool
 	Trusted    bool
-	Timeout    int  // solver seconds for this function's obligations in the quick tier
-	Prune      bool // ask the solver at every fork which branches are feasible
-	Thorough   bool // verified in the thorough tier only (slow obligations)
-	Exact      bool // verify against callee bodies instead of callee contracts
-	Pure       bool // side-effect free and loop free: calls are merged into one outcome
+	Timeout    int      // solver seconds for this function's obligations in the quick tier
+	Prune      bool     // ask the solver at every fork which branches are feasible
+	Thorough   bool     // verified in the thorough tier only (slow obligations)
+	Exact      bool     // verify against callee bodies instead of callee contracts
+	Pure       bool     // side-effect free and loop free: calls are merged into one outcome
 	Lets       []Clause // Label = name
 	Requires   []Clause
 	Ensures    []Clause
@@ -68,15 +68,15 @@ type FuncContract struct {
 	Loops      map[int]*LoopContract
 	Line       string
 	// interface template
-	Iface  string
-	Method string
+	Iface      string
+	Method     string
 	DetWhen    Expr
-	Determines []Expr // byte ranges whose final content must not depend on their initial content
-	Yields     []Yield // results that are functions of the arguments alone: name(args) == expr
-	GhostKeys []ghostItem // object-specific ghost effects: kind(expr)
-	ModGhost bool // the function has environment effects (sends, spawns, locks ...)
-	NoTerm bool // loops may omit decreases (environment loops)
-	Ghost  []string
+	Determines []Expr      // byte ranges whose final content must not depend on their initial content
+	Yields     []Yield     // results that are functions of the arguments alone: name(args) == expr
+	GhostKeys  []ghostItem // object-specific ghost effects: kind(expr)
+	ModGhost   bool        // the function has environment effects (sends, spawns, locks ...)
+	NoTerm     bool        // loops may omit decreases (environment loops)
+	Ghost      []string
 }
 
 func (ct *FuncContract) usable() bool {
